@@ -17,7 +17,7 @@ pub fn prop() -> Prop {
     Prop {
         id: "C17",
         level: "model_checking",
-        rule: "sessions on a REAL retained (Compiler, VM) pair, every line fed through the real parse -> compile_ast -> run: (1) all sessions of <= 3 lines over a 52-line alphabet (declarations, re-declarations, assignments, expressions over earlier globals, a loop, self-contained function definitions with calls, a block with a local, heap-valued lines, three parse failures, compile failures at every statement position, run-time failures after k completed assignments and inside a nested call); (2) crash points: for every session of <= 2 lines and every line of it, the injected failure after k instructions for EVERY k up to the line's length, followed by probe lines reading every global; (3) breadth-first search to depth d over a 14-line core alphabet with states merged on the fingerprint of compiler + VM + model environment. (6) failing-lines ladder: N consecutive lines that fail inside a nested call with operands pending (N around every power of two up to 4097 / 16 385: about 20 operands are pending when each fails, so 3 300 lines would fill the 65 535-slot stack if anything accumulated), then a declaration, a 5 000-deep recursion and a read-back. (5) session-length ladder: N lines each adding a global and new constants (integers, floats and strings, or a function per line), N around every power of two up to 1025, three failing lines in the middle, earlier and newest globals read back along the way. (4) long sessions, deviation-bounded: six ordinary ten-line sessions (declarations, re-declarations, blocks, loops, functions, heap values, output), every crash point of every one of their lines with the rest of the session as continuation, and every insertion of ONE or TWO lines from a 43-line deviation set (three of them huge: code beyond 16-bit addressing) (parse / compile / run-time failures at several statement positions, in blocks, in functions, after output and after completed effects, misplaced stop, re-declaration, empty line) at every position: sessions of up to 12 lines. Oracle: a session model on the reference interpreter (a line that fails before running contributes nothing, a line that fails while running contributes exactly the effects it completed: the declarations of the failing statement and of those after it never happened, the names keep their earlier meaning or none), equality of every line's value/output/error kind; for an injected failure the state afterwards must equal the model after SOME prefix of the line's effects; sessions without failing lines must also agree with eval of the concatenated text. The shadow heap stays on across lines. (7) the REAL interactive prompt: the repository's command-line program (unoptimised and release build) fed the base sessions with every insertion of one deviation line (thorough: pairs) and sessions of 65 / 257 / 1 025 lines on standard input; after every prompt the line's output and value as the model has them, every failing line survived, the process ends with its input",
+        rule: "sessions on a REAL retained (Compiler, VM) pair, every line fed through the real parse -> compile_ast -> run: (1) all sessions of <= 3 lines over a 52-line alphabet (declarations, re-declarations, assignments, expressions over earlier globals, a loop, self-contained function definitions with calls, a block with a local, heap-valued lines, three parse failures, compile failures at every statement position, run-time failures after k completed assignments and inside a nested call); (2) crash points: for every session of <= 2 lines and every line of it, the injected failure after k instructions for EVERY k up to the line's length, followed by probe lines reading every global; (3) breadth-first search to depth d over a 14-line core alphabet with states merged on the fingerprint of compiler + VM + model environment. (6) failing-lines ladder: N consecutive lines that fail inside a nested call with operands pending (N around every power of two up to 4097 / 16 385: about 20 operands are pending when each fails, so 3 300 lines would fill the 65 535-slot stack if anything accumulated), then a declaration, a 5 000-deep recursion and a read-back. (5) session-length ladder: N lines each adding a global and new constants (integers, floats and strings, or a function per line), N around every power of two up to 1025, three failing lines in the middle, earlier and newest globals read back along the way. (4) long sessions, deviation-bounded: six ordinary ten-line sessions (declarations, re-declarations, blocks, loops, functions, heap values, output), every crash point of every one of their lines with the rest of the session as continuation, and every insertion of ONE or TWO lines from a 68-line deviation set (since round 22 with every kind of run-time failure at its own site: inside builtins, operators, indexing, calls, arithmetic limits) (three of them huge: code beyond 16-bit addressing) (parse / compile / run-time failures at several statement positions, in blocks, in functions, after output and after completed effects, misplaced stop, re-declaration, empty line) at every position: sessions of up to 12 lines. Oracle: a session model on the reference interpreter (a line that fails before running contributes nothing, a line that fails while running contributes exactly the effects it completed: the declarations of the failing statement and of those after it never happened, the names keep their earlier meaning or none), equality of every line's value/output/error kind; for an injected failure the state afterwards must equal the model after SOME prefix of the line's effects; sessions without failing lines must also agree with eval of the concatenated text. The shadow heap stays on across lines. (7) the REAL interactive prompt: the repository's command-line program (unoptimised and release build) fed the base sessions with every insertion of one deviation line (thorough: pairs) and sessions of 65 / 257 / 1 025 lines on standard input; after every prompt the line's output and value as the model has them, every failing line survived, the process ends with its input",
         assumptions: &[
             "calls to a function defined by an EARLIER line are outside the property (upstream limitation) and not in the alphabet",
             "results handed back by run() are not released by the harness in session mode (they may alias globals or constants)",
@@ -612,7 +612,32 @@ const DEVIATIONS_FIXED: &[&str] = &[
     "{ }",
     "als nee { } anders { }; functie leeg() { } leeg()",
     "",
+    // every KIND of run-time failure, each at its own site in the machine: inside a builtin (bad text, wrong type,
+    // wrong number of arguments, with other arguments and operands pending), an operator on a heap value, an index
+    // out of range / of the wrong type (read and write), a call of something that is no function, a call with the
+    // wrong number of arguments, a zero divisor, a result out of range, a recursion that fills the stack
+    "int(\"12x\")",
+    "stel d = \"12x\"; lengte(d); int(d)",
+    "lengte(5)",
+    "lengte()",
+    "string(1, 2)",
+    "float([1])",
+    "[1, \"k\", int(\"zz\")]",
+    "lengte(string(int(\"zz\")))",
+    "print(\"{} {}\", 1, int(\"q\"))",
+    "\"a\" - 1",
+    "[1] + 1",
+    "\"abc\"[7]",
+    "[1][\"a\"]",
+    "stel d = [1]; d[9] = 1",
+    "stel d = 5; d(1)",
+    "functie w(x) { x } w(1, 2)",
+    "1 / 0",
+    "stel d = 0; 7 % d",
+    "1152921504606846975 + 1",
 ];
+/// how many of the fixed deviation lines are the run-time failure kinds at the end of the list
+const RUNTIME_KINDS: usize = 19;
 
 /// The fixed deviation lines plus five HUGE lines (code that does not fit 16-bit addressing, or comes within a
 /// few bytes of it): a declaration of a list of 22 000 elements, 16 400 statements, a line whose code ends just
@@ -671,7 +696,8 @@ fn long_sessions(sh: &mut Shard) {
                             continue;
                         }
                         // (the huge lines are paired with the failing re-declarations and compile failures only)
-                        let huge = |i: usize| i >= DEVIATIONS_FIXED.len();
+                        // (and so are the run-time failure kinds)
+                        let huge = |i: usize| i >= DEVIATIONS_FIXED.len() - RUNTIME_KINDS;
                         if (huge(d1i) || huge(d2i)) && !(huge(d1i) && d2i < 8) && !(huge(d2i) && d1i < 8) {
                             continue;
                         }
